@@ -15,26 +15,26 @@ def isError {α : Type} (r : M α) : Prop := ∃ msg, r = .error (.error msg)
 
 /-! ## the input / the rule file cannot be read, parsed or disassembled -/
 
-theorem rule_unreadable (w : World) (s : Config) (op : Op) (e : Err) (h : op.doc = .error e) :
+theorem C17_rule_unreadable (w : World) (s : Config) (op : Op) (e : Err) (h : op.doc = .error e) :
     (runOp w s op).2 = .error e := by unfold runOp; simp [h]
 
-theorem listing_unreadable (w : World) (s : Config) (op : Op) (doc : Y) (hdoc : op.doc = .ok doc)
+theorem C17_listing_unreadable (w : World) (s : Config) (op : Op) (doc : Y) (hdoc : op.doc = .ok doc)
     (rx : Rx) (hrx : (compileRule doc op.macroDocs s).2 = .ok rx) (hk : op.kind = .assembly) (e : Err)
     (h : w.readFile op.path = .error e) : (runOp w s op).2 = .error e := by
   unfold runOp; simp only [hdoc, hk, hrx, bind, Except.bind, h]
 
-theorem disassembler_fails (w : World) (s : Config) (op : Op) (doc : Y) (hdoc : op.doc = .ok doc)
+theorem C17_disassembler_fails (w : World) (s : Config) (op : Op) (doc : Y) (hdoc : op.doc = .ok doc)
     (rx : Rx) (hrx : (compileRule doc op.macroDocs s).2 = .ok rx) (hk : op.kind = .binary) (e : Err)
     (h : ∀ args, w.objdump args op.path = .error e) : (runOp w s op).2 = .error e := by
   unfold runOp; simp only [hdoc, hk, hrx, bind, Except.bind, h]
 
 /-- a rule that does not compile never yields a verdict -/
-theorem compile_error_propagates (w : World) (s : Config) (op : Op) (doc : Y) (hdoc : op.doc = .ok doc) (e : Err)
+theorem C17_compile_error_propagates (w : World) (s : Config) (op : Op) (doc : Y) (hdoc : op.doc = .ok doc) (e : Err)
     (h : (compileRule doc op.macroDocs s).2 = .error e) : (runOp w s op).2 = .error e := by
   unfold runOp; simp only [hdoc, h, bind, Except.bind]
 
 /-- a listing the parser rejects never yields a verdict -/
-theorem parse_error_propagates (w : World) (s : Config) (op : Op) (doc : Y) (hdoc : op.doc = .ok doc)
+theorem C17_parse_error_propagates (w : World) (s : Config) (op : Op) (doc : Y) (hdoc : op.doc = .ok doc)
     (rx : Rx) (hrx : (compileRule doc op.macroDocs s).2 = .ok rx) (hk : op.kind = .assembly) (text : Str)
     (ht : w.readFile op.path = .ok text) (e : Err) (h : parseListing text = .error e) :
     (runOp w s op).2 = .error e := by
@@ -42,20 +42,20 @@ theorem parse_error_propagates (w : World) (s : Config) (op : Op) (doc : Y) (hdo
 
 /-! ## missing or wrongly-typed `pattern` / `config` entries -/
 
-theorem doc_not_a_mapping (doc : Y) (mds : List (M Y)) (s : Config) (h : ∀ d, doc ≠ .dict d) :
+theorem C17_doc_not_a_mapping (doc : Y) (mds : List (M Y)) (s : Config) (h : ∀ d, doc ≠ .dict d) :
     isError (compileRule doc mds s).2 := by
   unfold compileRule
   cases doc with
   | dict d => exact absurd rfl (h d)
   | _ => exact ⟨_, rfl⟩
 
-theorem config_not_a_mapping (cfg : Y) (s : Config) (h : ∀ d, cfg ≠ .dict d) : isError (loadConfig cfg s).2 := by
+theorem C17_config_not_a_mapping (cfg : Y) (s : Config) (h : ∀ d, cfg ≠ .dict d) : isError (loadConfig cfg s).2 := by
   unfold loadConfig
   cases cfg with
   | dict d => exact absurd rfl (h d)
   | _ => exact ⟨_, rfl⟩
 
-theorem flag_not_boolean (d : List (Y × Y)) (key : String) (v : Y) (hv : dictGet d key = some v)
+theorem C17_flag_not_boolean (d : List (Y × Y)) (key : String) (v : Y) (hv : dictGet d key = some v)
     (hnb : ∀ b, v ≠ .bool b) : isError (boolOpt d key) := by
   unfold boolOpt
   rw [hv]
@@ -63,7 +63,7 @@ theorem flag_not_boolean (d : List (Y × Y)) (key : String) (v : Y) (hv : dictGe
   | bool b => exact absurd rfl (hnb b)
   | _ => exact ⟨_, rfl⟩
 
-theorem sections_not_a_list (d : List (Y × Y)) (v : Y) (hv : dictGet d "sections" = some v) (hnl : ∀ l, v ≠ .list l) :
+theorem C17_sections_not_a_list (d : List (Y × Y)) (v : Y) (hv : dictGet d "sections" = some v) (hnl : ∀ l, v ≠ .list l) :
     isError (cfgSections d) := by
   unfold cfgSections
   rw [hv]
@@ -82,7 +82,7 @@ theorem getTimes_str_body (s : Str) :
   · left; simp only [h, if_false, bind, Except.bind, pure, Except.pure]; rfl
 
 /-- a missing `pattern` (the key is absent: `None`), or one that is a scalar, cannot be compiled -/
-theorem pattern_missing_or_scalar (fl : Flags) (p : Y) (h : (∀ l, p ≠ .list l) ∧ (∀ d, p ≠ .dict d)) :
+theorem C17_pattern_missing_or_scalar (fl : Flags) (p : Y) (h : (∀ l, p ≠ .list l) ∧ (∀ d, p ≠ .dict d)) :
     isError (compileTree fl (topTree p)) := by
   unfold compileTree typeTree topTree
   cases p with
@@ -101,13 +101,13 @@ theorem pattern_missing_or_scalar (fl : Flags) (p : Y) (h : (∀ l, p ≠ .list 
 /-! ## structural faults of the pattern -/
 
 /-- an empty `$and` / `$or` / `$and_any_order` group is rejected, in every chain and context -/
-theorem empty_group (ch : Chain) (cx : Ctx) (name : Str) (t : Times) (caps : List Str)
+theorem C17_empty_group (ch : Chain) (cx : Ctx) (name : Str) (t : Times) (caps : List Str)
     (hname : name = "$and".toList ∨ name = "$or".toList ∨ name = "$and_any_order".toList) :
     isError (typ ch cx (.mk name t []) caps) := by
   rcases hname with rfl | rfl | rfl <;> cases ch <;> exact ⟨_, by simp [typ, fail, isSpecialReg, isCapture, specialPrefixes]; rfl⟩
 
 /-- `$not` needs exactly one argument -/
-theorem not_arity (ch : Chain) (cx : Ctx) (t : Times) (kids : List Node) (caps : List Str) (h : kids.length ≠ 1) :
+theorem C17_not_arity (ch : Chain) (cx : Ctx) (t : Times) (kids : List Node) (caps : List Str) (h : kids.length ≠ 1) :
     isError (typ ch cx (.mk "$not".toList t kids) caps) := by
   match kids, h with
   | [], _ => cases ch <;> exact ⟨_, by simp [typ, fail, isSpecialReg, isCapture, specialPrefixes]; rfl⟩
@@ -115,7 +115,7 @@ theorem not_arity (ch : Chain) (cx : Ctx) (t : Times) (kids : List Node) (caps :
   | _ :: _ :: _, _ => cases ch <;> exact ⟨_, by simp [typ, fail, isSpecialReg, isCapture, specialPrefixes]; rfl⟩
 
 /-- `$deref` without `main_reg` is rejected when the regex is built -/
-theorem deref_without_main_reg (fl : Flags) (caps : List Str) (fields : List Pat) (t : Times) (fs : List (Str × Rx))
+theorem C17_deref_without_main_reg (fl : Flags) (caps : List Str) (fields : List Pat) (t : Times) (fs : List (Str × Rx))
     (hfs : compFields fl caps fields [] = .ok fs)
     (hno : fs.find? (fun f => f.1 == "main_reg".toList) = none) :
     isError (comp fl caps (.deref fields t)) := by
@@ -123,7 +123,7 @@ theorem deref_without_main_reg (fl : Flags) (caps : List Str) (fields : List Pat
   exact ⟨_, rfl⟩
 
 /-- negative repetition counts are rejected (integer form) -/
-theorem negative_times (name body : Y) (n : Int) (hn : n < 0) (rest : List (Y × Y))
+theorem C17_negative_times (name body : Y) (n : Int) (hn : n < 0) (rest : List (Y × Y))
     (hget : dictGet ((name, body) :: rest) "times" = some (.int n)) :
     isError (getTimes ((name, body) :: rest)) := by
   unfold getTimes
@@ -132,7 +132,7 @@ theorem negative_times (name body : Y) (n : Int) (hn : n < 0) (rest : List (Y ×
   exact ⟨_, rfl⟩
 
 /-- negative or inverted `{min, max}` bounds are rejected -/
-theorem inverted_times (name body : Y) (t : List (Y × Y)) (lo hi : Int) (rest : List (Y × Y))
+theorem C17_inverted_times (name body : Y) (t : List (Y × Y)) (lo hi : Int) (rest : List (Y × Y))
     (hget : dictGet ((name, body) :: rest) "times" = some (.dict t))
     (hlo : dictGet t "min" = some (.int lo)) (hhi : dictGet t "max" = some (.int hi)) (hbad : lo < 0 ∨ hi < lo) :
     isError (getTimes ((name, body) :: rest)) := by
@@ -145,7 +145,7 @@ theorem inverted_times (name body : Y) (t : List (Y × Y)) (lo hi : Int) (rest :
   exact ⟨_, rfl⟩
 
 /-- an undefined macro is reported (C19 gives the full statement) -/
-theorem undefined_macro (macros : List Y) (tree : Y) (ms : List Macro) (t : Y) (set : List Str)
+theorem C17_undefined_macro (macros : List Y) (tree : Y) (ms : List Macro) (t : Y) (set : List Str)
     (hms : macros.mapM macroOfY = .ok ms) (hnames : ms.any (fun m => !isMacroName m.name) = false)
     (hp : resolvePasses ms tree [] = .ok (t, set)) (hleft : findMacroNames t ≠ []) :
     isError (resolveAllMacros macros tree) := by
